@@ -40,6 +40,9 @@ class DistFamily(common.Family):
         'cut': rng.randrange(0, nops + 1),
         'latency': rng.choice([0, 1, 1]),
         'hb_threshold': rng.choice([200, 360]),
+        # calls a worker accepts at a time (a prefetching server still runs
+        # one generator at a time, whatever this says)
+        'max_parallelism': rng.choice([1, 1, 2, 3]),
         'sim': {'fine': rng.random() < 0.1,
                 'stay': rng.choice([0.0, 0.5, 0.8])},
     }
@@ -97,7 +100,8 @@ class DistFamily(common.Family):
     pool = courier_worker.WorkerPool(
         cl.addresses(), call_timeout=0,
         heartbeat_threshold_secs=cfg['hb_threshold'],
-        iterate_batch_size=cfg['ibs'])
+        iterate_batch_size=cfg['ibs'],
+        max_parallelism=cfg.get('max_parallelism', 1))
     if mode == 'sharded':
       rq = queue.SimpleQueue()
       outs = []
